@@ -183,6 +183,22 @@ def run(tier, seed, rng):
         if o.get('ok') != w:
             failures.append(dict(kind='oracle', sig='defaults-embedded-descriptor', what='a packet that embeds (embed=True) a packet with a described field: the constructed packet does not hold the declared defaults / the keyword values',
                                  classes=psrc, cls=c['cls'], case=c['value'], observed=o, required=w))
+    # a fixed-size string whose declared default is SHORTER (or longer) than the size: the constructed packet holds the declared
+    # default itself (what pack() makes of a wrong-sized value is finding D11 and not looked at here)
+    psrc += ("class Short(Packet):\n    tag = Data(4, default=b'ab')\n    z = Int(1)\n    w = Data(2, default=b'xyz')\n"
+             "class ShortL(Packet):\n    __bisturi__ = {'generate_for_pack': False, 'generate_for_unpack': False}\n    tag = Data(4, default=b'ab')\n    z = Int(1)\n"
+             "class HasShort(Packet):\n    h = Int(1)\n    s = Ref(Short)\n    t = Ref(ShortL(z=5))\n")
+    hcases = [dict(cls='Short', op='default', value={"py": "[Short().tag, Short().w, Short(z=3).tag, Short(tag=b'ab').tag, Short(tag=b'abcd').tag]"}),
+              dict(cls='ShortL', op='default', value={"py": "[ShortL().tag, ShortL(z=3).tag, ShortL().z]"}),
+              dict(cls='HasShort', op='default', value={"py": "[HasShort().s.tag, HasShort().s.w, HasShort().t.tag, HasShort().t.z, HasShort(h=2).s.tag]"})]
+    hwant = [[{"x": b'ab'.hex()}, {"x": b'xyz'.hex()}, {"x": b'ab'.hex()}, {"x": b'ab'.hex()}, {"x": b'abcd'.hex()}],
+             [{"x": b'ab'.hex()}, {"x": b'ab'.hex()}, 0],
+             [{"x": b'ab'.hex()}, {"x": b'xyz'.hex()}, {"x": b'ab'.hex()}, 5, {"x": b'ab'.hex()}]]
+    hres = run_impl(os.path.join(VERIF, 'harness', 'impl_pkt.py'), dict(header=decl.HEADER_PY, blocks=[dict(name='protos', src=psrc)], modname='c19h', cases=hcases))
+    for c, o, w in zip(hcases, hres['outcomes'], hwant):
+        if o.get('ok') != w:
+            failures.append(dict(kind='oracle', sig='defaults-short-string', what='a fixed-size string with a declared default of another length: the constructed packet must hold the declared default itself',
+                                 classes=psrc, cls=c['cls'], case=c['value'], observed=o, required=w))
     scases = [dict(cls='SelD', op='default', value={"py": "[SelD().a.n, SelD().a.m, SelD().z, SelD().a is not SelD().a]"}),
               dict(cls='SelD', op='pack', value={"py": "SelD()"}),
               dict(cls='SelL', op='default', value={"py": "[SelL().a.n, SelL().a.m, SelL().a is not SelL().a]"}),
